@@ -13,7 +13,7 @@ RULE = ("seeded generator over (parent scalar class x chain-code class x depth x
         "construction form) with boundary corpora; PRF corners via chosen-output stub; distinct = "
         "distinct (monitor, exact case) digests; every case is non-trivial (a full CKDpriv "
         "recomputed by the independent model and compared field by field and as printed strings)"
-        " EXTENSIONS: + parents as temporaries (orphan), copies / pickles of the derived node, index paths as tuple / iterator / generator, parents parsed from streams at an offset / as second record, 2^19+600 further derivations on the parent of a held child (fast mode)")
+        " EXTENSIONS: + parents as temporaries (orphan), copies / pickles of the derived node, index paths as tuple / iterator / generator, parents parsed from streams at an offset / as second record, 2^19+600 further derivations on the parent of a held child (fast mode), one node-level listing call of K-1 .. 2K+1 rows for every threshold K harvested from the code under test (vpkg.harvest / vpkg.longrun)")
 LEVEL_TEXT = ("Every PrvKeyNode.ckd execution (direct, via derive_path, and with the PRF substituted by a chosen-output "
               "stub) is adjudicated by an independent CKDpriv model: child scalar as integer and as the 32-byte field of the "
               "printed xprv, chain code, depth, child number, parent fingerprint, network flag, PRF input layout. Held on K "
@@ -334,6 +334,12 @@ def run(ctx):
         from .c13 import judge_capacity
         judge_capacity(ctx, {"seed": gen.rbytes(rnd, 32), "testnet": bool(ctx.seed & 1), "kind": "private",
                              "n": (1 << 19) + 600 if not ctx.thorough else (1 << 21) + 600, "fast": True, "how": "mixed"})
+    # ONE listing call of n rows on a private parent, n aimed at every threshold written down in the code under test
+    # (vpkg.harvest / vpkg.longrun): count, child numbers in order, and sampled rows against the same child derived alone
+    from .. import longrun
+    for case in longrun.node_listing_cases(ctx, "prv", gen.rbytes(rnd, 32)):
+        longrun.judge_node_listing(ctx, "long_listing", "C01", case)
+    ctx.extra["harvested_thresholds"] = longrun.thresholds()
 
 
 def replay(ctx, monitor, case):
@@ -345,6 +351,9 @@ def replay(ctx, monitor, case):
         elif monitor == "capacity":
             from .c13 import judge_capacity
             judge_capacity(ctx, case)
+        elif monitor == "long_listing":
+            from .. import longrun
+            longrun.judge_node_listing(ctx, "long_listing", "C01", case)
         elif monitor == "derive_path":
             judge_derive_path(ctx, case)
         else:
